@@ -360,6 +360,70 @@ def oracle(case):
         return ("Linearization arithmetic: Jacobian differs from finite differences", dict(sig2, kind="jacobian"))
     if not close(r2["adj"], r2["jac"].T, 1e-12):
         return ("Linearization arithmetic: adjoint Jacobian is not the transpose", dict(sig2, kind="adjoint"))
+    return complex_oracle(case)
+
+
+HOLO_PTW = {"sin", "cos", "exp", "expm1", "sinh", "cosh", "tanh", "sigmoid", "reciprocal", "sqrt", "log", "log10",
+            "log1p", "power", "exponentiate", "tan", "arctan"}
+HOLO_NODES = {"var", "add", "sub", "mul", "scale", "addc", "mulc", "ptw", "lin", "sum", "getKey", "putKey", "chain"}
+
+
+def holomorphic(t):
+    return all(n["t"] in HOLO_NODES and (n["t"] != "ptw" or n["f"] in HOLO_PTW) for n in X.nodes(t))
+
+
+def complex_oracle(case):
+    """complex inputs (holomorphic trees only): value on a linearization = plain value, the Jacobian is complex-linear and
+    equals complex finite differences, its adjoint is the CONJUGATE transpose.  Real code only."""
+    import random
+    from core.ctx import canon
+    if not holomorphic(case["expr"]):
+        return None
+    rng = random.Random(canon(case) + "c")
+    sig = {"site": "complex-input"}
+    try:
+        with quiet(), np.errstate(all="ignore"):
+            import nifty.cl as ift
+            b = X.Builder(case["indom"], case.get("space", "U"))
+            op = b.build(case["expr"])
+            din, tdom = X.op_indom(b, op), X.dom(case["expr"])
+            x0 = np.concatenate([np.asarray(case["x"][k], dtype=np.float64) for k, _ in X.flat_dom(din)])
+            z0 = x0 + 1j * np.array([rng.randint(-2, 2) / 32 for _ in x0])
+            p = X.from_flat(b, z0, din, np.complex128)
+            lin = op(ift.Linearization.make_var(p, False))
+            val, pval = X.to_flat(lin.val, tdom), X.to_flat(op(p), tdom)
+            J = X.dense(lin.jac, b, din, tdom, np.complex128)
+            Ji = X.dense(lambda f: lin.jac(f), b, din, tdom, np.complex128)
+            A = X.dense(lin.jac.adjoint_times, b, tdom, din, np.complex128)
+            # complex-linearity: J(i e_j) = i J(e_j)
+            Jim = np.zeros_like(J)
+            for j in range(J.shape[1]):
+                e = np.zeros(J.shape[1], dtype=np.complex128)
+                e[j] = 1j
+                Jim[:, j] = X.to_flat(lin.jac(X.from_flat(b, e, din, np.complex128)), tdom)
+            f = lambda z: X.to_flat(op(X.from_flat(b, z, din, np.complex128)), tdom)
+            FD = np.zeros_like(J)
+            for j in range(J.shape[1]):
+                h = 1e-4
+                e = np.zeros(J.shape[1], dtype=np.complex128)
+                e[j] = h
+                d1 = (f(z0 + e) - f(z0 - e)) / (2 * h)
+                d2 = (f(z0 + e / 2) - f(z0 - e / 2)) / h
+                FD[:, j] = (4 * d2 - d1) / 3
+    except Exception as e:
+        return (f"complex input: raised {type(e).__name__} in {err_site(e)}: {str(e)[:120]}",
+                dict(sig, kind="error:" + type(e).__name__, where=err_site(e)))
+    if not np.all(np.isfinite(pval)) or not np.all(np.isfinite(FD)) or np.max(np.abs(FD), initial=0) > 1e4:
+        return None     # left the valid range by the imaginary shift: not a statement about the property
+    cl = lambda a, c, tol: bool(np.all(np.abs(a - c) <= tol * max(1.0, float(np.max(np.abs(c), initial=0)))))
+    if not cl(val, pval, 1e-12):
+        return ("complex input: value on a Linearization differs from plain evaluation", dict(sig, kind="value"))
+    if not cl(J, FD, 5e-6):
+        return ("complex input: Jacobian differs from complex finite differences", dict(sig, kind="jacobian"))
+    if not cl(Jim, 1j * J, 1e-12):
+        return ("complex input: Jacobian is not complex-linear", dict(sig, kind="linearity"))
+    if not cl(A, J.conj().T, 1e-12):
+        return ("complex input: adjoint Jacobian is not the conjugate transpose", dict(sig, kind="adjoint"))
     return None
 
 
@@ -429,6 +493,8 @@ def run(ctx):
         compare_tree(ctx, c, r, m)
         compare_arith(ctx, c, r, arith_eval(c), m)
         res = oracle(c)
+        if holomorphic(c["expr"]):
+            ctx.stat("complex-oracle")
         if res:
             ctx.counterexample(c, *res)
 
